@@ -97,7 +97,52 @@ CLAIMED = {
         "text": "PER-SYMBOL RESOLUTION KERNEL ONLY - relocation-driven allocations, section sizes, symbol/version/dynamic tables and eh_frame accounting are not decided. The internal 'insufficient/excessive allocation' errors are disagreements between three passes; for one symbol's GOT / PLT / dynamic-relocation entries all three are within reach and CBMC proves on the real code, for every flag combination layout can produce, every output kind, with and without packed relative relocations: the GOT and PLT address cursors advance by exactly the bytes reserved, and the writer given tables of exactly the reserved sizes succeeds and leaves .got, .plt.got, .rela.plt, .rela.dyn (general and relative) and .relr.dyn empty; for TLS symbols each TPOFF/DTPMOD/DTPOFF/TLSDESC relocation sits on the slot the Resolution accessors hand to relocation processing. A relation between passes over a finite flag space with symbolic addresses: a proof.",
         "note": "Trusted/assumed: the flag invariants (which ValueFlags combinations layout produces) were derived by reading resolution_flags(), process_relocation and symbol_db.rs and are listed in the evidence - a combination outside them is not checked; undefined weak TLS symbols excluded; x86-64 PLT writer only; GOT 8-aligned, |GOT-PLT| < 2^30. Not decided: process_relocation's RELR/RELA counting by offset parity versus the writer's choice by address parity (a known mismatch for odd section addresses, DESIGN.md section 9).",
     },
+    "C08": {
+        "category": "other",
+        "design_ref": "DESIGN.md section 6, C08",
+        "technique": "Kani on the real crate: full-domain harness on create_gnu_hash_layout + GnuHashLayout::allocate for every symbol count (sort stubbed out), bounded harnesses (<= 3 symbols) running the real write_gnu_hash_tables / write_sysv_hash_table on nondeterministic Layout storage and checking glibc's lookup algorithm on the bytes written",
+        "text": "BOUNDED for the writers (at most 3 dynamic symbols), complete for the table geometry. For every number of dynamic symbols CBMC proves that .gnu.hash is produced exactly for gnu/both hash styles in dynamic outputs, that the bloom word count is a power of two (glibc masks with count-1 and asserts it), and that the reserved size is exactly header + bloom + buckets + chains. For up to 3 symbols with symbolic hashes, 1-2 buckets, symbolic symbol base and ARBITRARY prior buffer contents, the loader's GNU-hash lookup (bloom bits, bucket, chain walk, stop bits) and SysV lookup run on the bytes the real writers produce find every defined symbol, never leave the table, and the bytes do not depend on the buffer's previous contents. The per-symbol loops need a bound under CBMC; reported as bounded, not as proved.",
+        "note": "Assumed: rayon's parallel quicksort sorts (stubbed by a sequential insertion sort over the same comparison closure in the order obligation, by a no-op in the geometry obligation). Trusted: the transcription of glibc's dl-lookup.c. Not covered: .dynsym/.dynstr contents, name comparison on hash collisions, versioned duplicates, more than 3 symbols in the writer obligations.",
+    },
+    "C11": {
+        "category": "other",
+        "design_ref": "DESIGN.md section 6, C11",
+        "technique": "Kani bounded harness (<= 5 objects, symbolic sizes / padding / branch range) on the real thunks::assign_thunk_blocks with a recording callback",
+        "text": "BLOCK-ASSIGNMENT KERNEL ONLY, BOUNDED to 5 objects - that branches are redirected to a thunk of the assigned block and that thunk code reaches the target is not decided. For every sequence of up to 5 objects in address order with symbolic sizes, padding and branch range, CBMC proves on the real function: every object is assigned exactly once to an existing block, block ids follow address order, every block has exactly one owner, and every object lies within the branch range plus the extents of itself and of the block's owner from the block's position - the strongest bound of that shape (the tighter variants are refuted), which is what the 2 MiB slack subtracted from the hardware range has to cover.",
+        "note": "The function is generic over an iterator and a callback (out of Verus's reach) and loops over objects (CBMC needs the count bounded). Assumption recorded with the claim: extent(owner) + extent(object) + thunk bytes <= 2 MiB; a single object with more primary text than that gets no guarantee. PLT/IFUNC targets, maybe_get_thunk_for_relocation and write_thunks are not covered.",
+    },
+    "C15": {
+        "category": "other",
+        "design_ref": "DESIGN.md section 6, C15",
+        "technique": "Kani bounded harnesses (patterns <= 5 bytes, names <= 5 bytes, all symbolic) on the real glob_match::{analyze_glob_pattern, unescape_pattern}, SectionRule::{new, matches}, SectionNameMatcher::prefix_bytes and section_name_prefix_hash, against fnmatch restricted to metacharacter-free patterns",
+        "text": "WILD'S OWN PATTERN CODE ONLY, BOUNDED - wildcard matching itself (glob crate) and the hash-table probe (hashbrown) are assumed, so 'the first matching description wins' and KEEP are not decided. For every pattern of at most 5 bytes and name of at most 5 bytes CBMC proves: a pattern is treated as a glob exactly when it has an unescaped * ? [ ]; unescaping removes exactly the escaping backslashes; a pattern without unescaped metacharacters is accepted, becomes an exact rule that matches precisely the names fnmatch matches, keyed by its unescaped text; a rule with at least four literal bytes has a hash key and every name it matches probes that key; the prefix hash depends on exactly the first four bytes. One known finding (patterns with fewer than 4 literal leading bytes panic or never match) is listed in known_findings.json and reported as KNOWN-FINDING.",
+        "note": "Assumed: glob::Pattern implements fnmatch (did not finish under CBMC); hashbrown HashTable insert/find (crashes the Kani compiler). memchr's CPU feature probe stubbed (portable path).",
+    },
+    "C22": {
+        "category": "other",
+        "design_ref": "DESIGN.md section 6, C22",
+        "technique": "Kani panic-freedom harnesses (automatic index / overflow / unwrap checks are the obligations) with unconstrained inputs on the real <ElfX86_64 as Arch>::new_relaxation + Relaxation::apply, RelocationKindInfo::write_to_buffer, the Divide/shift arms of evaluate_expression (extracted, shared with C16) and, bounded, ArchiveIterator over the object crate's archive parser",
+        "text": "A LIST OF INPUT-FACING FUNCTIONS, not 'any bytes supplied as objects' - the object crate's ELF parser, the winnow parsers, argument parsing and everything over Layout are not covered. CBMC proves no panic (index, slice, arithmetic overflow, unwrap) in: the x86-64 relaxation matcher and rewriter for every section content and every 64-bit relocation offset, inside or outside the section (complete); write_to_buffer for every value and buffer length (complete); linker-script division and shifts for all operand pairs (complete); archive member iteration for single-member archives of at most 72 bytes with symbolic size field and truncation point (bounded). Two defects found this way were repaired.",
+        "note": "Assumed: the relocation type reaching new_relaxation is one the x86-64 table accepts (the caller bails out first); archive bytes start with the magic; format/backtrace/cpuid stubs on error paths. AArch64/RISC-V/LoongArch relaxation code is not covered (AArch64's debug_assert! on instruction bytes is by design).",
+    },
+    "C30": {
+        "category": "other",
+        "design_ref": "DESIGN.md section 6, C30",
+        "technique": "Kani bounded harnesses on the real elf::init_fini_priority / parse_priority_suffix (names: family + <= 6 bytes, and every name <= 9 bytes) and on the real elf_writer::should_reverse_contents over nondeterministic File/OutputSections storage with a symbolic section name, type and flags (names <= 12 bytes)",
+        "text": "PRIORITY KEY AND REVERSAL PREDICATE ONLY, BOUNDED by name length - that the output order follows the key (a std stable sort) and input order within a priority are not decided. CBMC proves the key equals GNU ld's SORT_BY_INIT_PRIORITY key (.init_array.N/.fini_array.N -> N, .ctors.N/.dtors.N -> 65535-N, unsuffixed -> 65535, anything else -> none) and that an input section's words are reversed exactly when it lands in .init_array/.fini_array (directly or through a per-priority secondary) and its NAME starts with .ctors/.dtors, whatever its section type and flags.",
+        "note": "Priorities above 65535 are clamped by wild where GNU ld keeps the number (GCC never emits them): order-preserving but not exact, recorded, not a finding. Trusted: the transcription of ld's get_init_priority and of the default script's KEEP(SORT_BY_INIT_PRIORITY ...) lines.",
+    },
+    "C36": {
+        "category": "other",
+        "design_ref": "DESIGN.md section 6, C36",
+        "technique": "Kani full-domain harnesses on the real get_property_class of x86-64 and AArch64 (every u32 type); Route S extraction of merge_gnu_property_notes / validate_stack_section with stand-in HashMap/itertools, bounded to ONE input file",
+        "text": "CLASSIFICATION AND EXEC-STACK PREDICATE ONLY - the AND/OR fold over SEVERAL inputs, the heart of the property, is NOT decided (hashbrown crashes the Kani compiler on the real crate and the extraction exhausts CBMC for two or more files), nor is the PT_GNU_STACK computation in layout. CBMC proves for every 32-bit property type that x86-64 and AArch64 merge it under the class GNU ld uses (generic AND/OR ranges on every target, x86 AND/OR/OR_AND ranges, AArch64 FEATURE_1_AND) and reject types outside every range; that an executable-stack request is refused exactly without -z execstack; and, for a single input, the merge result, the -z x86-64-vN OR-in and the unclassified-type error.",
+        "note": "The single-input merge obligations run on a mechanical extraction with a 40-line association-list stand-in for std HashMap and itertools (listed as assumptions). One defect found and repaired (AArch64 generic ranges).",
+    },
 }
+
+# properties whose check has run green on the unchanged tree (only these are claimed)
+READY = {"C01", "C02", "C09", "C12", "C13", "C14", "C16", "C17", "C23", "C29"}
 
 PENDING = {
     pid: "check under construction in this session (planned claim, see DESIGN.md section 6); not claimed until its obligations run green"
